@@ -35,51 +35,62 @@ def isSquare (a : F) : Bool := (O.sqrt a).isSome
 
 def div (a b : F) : F := a *' O.inv b
 
-/-- BIP324 `xswiftec(u, t)`: `none` mirrors Go's "no calculated x-values were square". -/
-def xswiftec (u t : F) : Option F :=
+/-- steps 1–3 of BIP324 `xswiftec`: u = 0 ↦ 1, t = 0 ↦ 1, and t ↦ 2t when g(u) = −t² -/
+def normUT (u t : F) : F × F :=
   let u := if u = O.ofNat 0 then O.ofNat 1 else u
   let t := if t = O.ofNat 0 then O.ofNat 1 else t
   let t := if g O u = O.neg (t *' t) then t +' t else t
+  (u, t)
+
+/-- steps 4–6: X = (g(u) − t²)/(2t), Y = (X + t)/(c·u); candidates
+(u + 4Y², −X/(2Y) − u/2, X/(2Y) − u/2) -/
+def cands (u t : F) : F × F × F :=
   let X := div O (g O u -' t *' t) (O.ofNat 2 *' t)
   let Y := div O (X +' t) (O.c *' u)
-  let x3 := u +' O.ofNat 4 *' (Y *' Y)
-  if isSquare O (g O x3) then some x3 else
   let h := div O X (O.ofNat 2 *' Y)
   let hu := div O u (O.ofNat 2)
-  let x2 := O.neg h -' hu
-  if isSquare O (g O x2) then some x2 else
-  let x1 := h -' hu
-  if isSquare O (g O x1) then some x1 else none
+  (u +' O.ofNat 4 *' (Y *' Y), O.neg h -' hu, h -' hu)
+
+/-- the first candidate x with g(x) a square; `none` mirrors Go's "no calculated x-values were
+square" (cannot happen over a finite field) -/
+def pick (c : F × F × F) : Option F :=
+  if isSquare O (g O c.1) then some c.1 else
+  if isSquare O (g O c.2.1) then some c.2.1 else
+  if isSquare O (g O c.2.2) then some c.2.2 else none
+
+/-- BIP324 `xswiftec(u, t)` -/
+def xswiftec (u t : F) : Option F :=
+  pick O (cands O (normUT O u t).1 (normUT O u t).2)
+
+/-- first half of BIP324 `xswiftec_inv(x, u, case)`: the conic point (v, s = w²) -/
+def invVS (u x : F) (case : Nat) : Option (F × F) :=
+  if case &&& 2 = 0 then
+    if isSquare O (g O (O.neg (x +' u))) then none else
+    some (x, O.neg (div O (g O u) (u *' u +' u *' x +' x *' x)))
+  else
+    let s := x -' u
+    if s = O.ofNat 0 then none else
+    match O.sqrt (O.neg (s *' (O.ofNat 4 *' g O u +' O.ofNat 3 *' (u *' u) *' s))) with
+    | none => none
+    | some r =>
+      if case &&& 1 = 1 ∧ r = O.ofNat 0 then none else
+      some (div O (div O r s -' u) (O.ofNat 2), s)
+
+/-- second half: t = ±w·(u(1∓c)/2 + v);
+case&5 = 0: −w(..(1−c)..), 1: w(..(1+c)..), 4: w(..(1−c)..), 5: −w(..(1+c)..) -/
+def invT (u v w : F) (case : Nat) : F :=
+  let a := if case &&& 1 = 0 then div O (u *' (O.ofNat 1 -' O.c)) (O.ofNat 2) +' v
+           else div O (u *' (O.ofNat 1 +' O.c)) (O.ofNat 2) +' v
+  if (case &&& 5 = 0) ∨ (case &&& 5 = 5) then O.neg (w *' a) else w *' a
 
 /-- BIP324 `xswiftec_inv(x, u, case)` -/
 def xswiftecInv (u x : F) (case : Nat) : Option F :=
-  let two := O.ofNat 2
-  let vs : Option (F × F) :=
-    if case &&& 2 = 0 then
-      if isSquare O (g O (O.neg (x +' u))) then none else
-      let v := x
-      let s := O.neg (div O (g O u) (u *' u +' u *' v +' v *' v))
-      some (v, s)
-    else
-      let s := x -' u
-      if s = O.ofNat 0 then none else
-      match O.sqrt (O.neg (s *' (O.ofNat 4 *' g O u +' O.ofNat 3 *' (u *' u) *' s))) with
-      | none => none
-      | some r =>
-        if case &&& 1 = 1 ∧ r = O.ofNat 0 then none else
-        some (div O (div O r s -' u) two, s)
-  match vs with
+  match invVS O u x case with
   | none => none
   | some (v, s) =>
     match O.sqrt s with
     | none => none
-    | some w =>
-      let one := O.ofNat 1
-      let a := if case &&& 1 = 0 then div O (u *' (one -' O.c)) two +' v
-               else div O (u *' (one +' O.c)) two +' v
-      let r := w *' a
-      -- case&5 = 0: −w(..(1−c)..), 1: w(..(1+c)..), 4: w(..(1−c)..), 5: −w(..(1+c)..)
-      if (case &&& 5 = 0) ∨ (case &&& 5 = 5) then some (O.neg r) else some r
+    | some w => some (invT O u v w case)
 
 end generic
 
